@@ -149,3 +149,62 @@ def displayed(report, source, tree, atok, skips):
             if not any("rules-SyntaxError" in t and lo <= a and b <= hi for t, a, b in sp):
                 v.append(("syntax-error-not-marked", f"line {i + 1} could not be parsed but is not marked as a syntax error"))
     return v
+
+
+def invented(report, source, tree, atok, skips=()):
+    """The converse of `displayed`: every detail the report shows is one the checker attached to a node whose text touches
+    the line(s) where it is shown — the report does not announce types, errors or restrictions nobody inferred."""
+    from nada_dsl.audit.common import audits, SyntaxRestriction, RuleInAncestor, TypeInParent
+    from nada_dsl.audit.report import type_to_str
+    v = []
+    lines = source.split("\n")
+    starts = [0]
+    for l in lines:
+        starts.append(starts[-1] + len(l) + 1)
+
+    def line_of(offset):
+        import bisect
+        return max(1, bisect.bisect_right(starts, offset))
+
+    allowed = {}        # detail text -> set of lines
+    for a in ast.walk(tree):
+        if not hasattr(a, "lineno"):
+            continue
+        try:
+            (l0, _), (l1, _) = atok.get_text_positions(a, True)
+        except Exception:  # pylint: disable=broad-except
+            l0, l1 = a.lineno, getattr(a, "end_lineno", a.lineno)
+        ds = set()
+        r, t = audits(a, "rules"), audits(a, "types")
+        if isinstance(r, RuleInAncestor):
+            continue        # inside a prohibited construct: the ancestor's restriction is what is shown
+        if isinstance(a, (ast.Assign, ast.AnnAssign)) and not isinstance(r, SyntaxRestriction):
+            # an assignment always shows what was inferred for it — "type cannot be determined" when nothing was
+            ds.add(type_to_str(t))
+        if isinstance(r, SyntaxRestriction):
+            ds.add("SyntaxRestriction: " + str(r))      # a prohibited construct shows its restriction, nothing else
+        elif t is not None and not isinstance(t, TypeInParent) and (hasattr(t, "__name__") or isinstance(t, TypeError)):
+            # (anything else has no printable type: only an assignment shows "type cannot be determined", see above)
+            try:
+                ds.add(type_to_str(t))
+            except Exception:  # pylint: disable=broad-except
+                pass
+            if isinstance(t, TypeError):
+                ds.add("TypeError: " + str(t))
+        if isinstance(a, ast.Return) and not isinstance(r, SyntaxRestriction):
+            # the keyword shows the type of the returned value ("type cannot be determined" when none was inferred)
+            ds.add(type_to_str(audits(a.value, "types") if a.value is not None else type(None)))
+        for d in ds:
+            allowed.setdefault(d, set()).update(range(l0, l1 + 1))
+    for i in skips:
+        allowed.setdefault("SyntaxError", set()).add(i + 1)
+    for t, a, b in spans(report):
+        m = re.search(r'data-detail="(.*)"\s*>\s*$', t, flags=re.S)
+        if not m:
+            continue
+        d = m.group(1)
+        shown = set(range(line_of(a), line_of(max(a, b - 1)) + 1))
+        if not (allowed.get(d, set()) & shown):
+            v.append(("detail-not-inferred", f"line {min(shown)} ({lines[min(shown) - 1].strip()[:50]!r}) displays {d[:80]!r}, which the checker "
+                                             "attached to no node of that line"))
+    return v
